@@ -91,15 +91,20 @@ def run(d, name='MC', workers=16, timeout=3600, env=None, extra=(), heap='8g', s
         out = ex.stdout if isinstance(ex.stdout, str) else (ex.stdout or b'').decode('utf8', 'replace')
         rc, timed_out = -9, True
     wall = time.time() - t0
-    with open(os.path.join(d, name + '.out'), 'w') as f:
-        f.write(out)
-    js = []
+    js, rest = [], []
     for line in out.splitlines():
         if line.startswith('"{') or line.startswith('"['):
             try:
                 js.append(json.loads(json.loads(line)))
+                continue
             except ValueError:
                 pass
+        rest.append(line)
+    # the JSON lines (possibly millions) are kept parsed only; everything else is TLC's own output
+    out = '\n'.join(rest)
+    del rest
+    with open(os.path.join(d, name + '.out'), 'w') as f:
+        f.write(out[:2000000])
     gen = dist = 0
     for m in _STATS.finditer(out):
         gen, dist = int(m.group(1)), int(m.group(2))
